@@ -117,6 +117,17 @@ def run_case(case):
             # documentation says so); not a change 'the library exhibits' consistently -> excluded and counted
             res["dateutil_dst_only_excluded"] = res.get("dateutil_dst_only_excluded", 0) + 1
             continue
+        if lib == "dateutil":
+            # a fourth class of the same kind: dateutil's UTC->local conversion shows the change at another instant than its
+            # own table (and than its local->UTC conversion), e.g. America/Indiana/Winamac 2007-11-04: table 06:00Z, astimezone()
+            # 05:00Z, timestamp() of that result 06:00Z. No generator built on this API can bracket such a change at adjacent
+            # minutes -> excluded and counted
+            da = dtm.datetime.fromtimestamp(t - 60, UTC).astimezone(tz)
+            db_ = dtm.datetime.fromtimestamp(t, UTC).astimezone(tz)
+            if int(da.utcoffset().total_seconds()) != before[0] or int(db_.utcoffset().total_seconds()) != after[0] \
+                    or int(db_.timestamp()) != t or int(da.timestamp()) != t - 60:
+                res["dateutil_api_table_mismatch_excluded"] = res.get("dateutil_api_table_mismatch_excluded", 0) + 1
+                continue
         # two changes closer together than one sampling interval can cancel between two samples: such a change is not one a
         # sampling generator can be asked to exhibit -> excluded and counted (does not occur for intervals <= 22 h)
         if any(t2 != t and abs(t2 - t) <= interval * 3600 for t2, _, _ in tab):
@@ -239,6 +250,11 @@ def _zst_year_end_transitions(zones):
     return out
 
 
+def run_case_list(cs):
+    """several cases one after the other in the same process"""
+    return [run_case(c) for c in cs]
+
+
 def construct_cases(lib, rnd, n):
     """cases built from the library's own table: a transition close to the end of a year becomes the last thing in range"""
     out = []
@@ -305,7 +321,31 @@ def run(ctx):
     keep_idx = set(rnd.sample(range(len(cases)), 10))
     for i in keep_idx:
         cases[i]["keep"] = True
-    results = vt.pmap(run_case, cases)
+    # the same (zone, range, interval) generated twice in ONE process with different settings of detect_dst (and once more
+    # with the first setting): a generator object must not inherit anything from the ones created before it
+    pair_cases = []
+    dst_only = {}
+    for lib in ("pytz", "dateutil"):
+        zl = []
+        for z in zones[lib]:
+            try:
+                _, tab = table(lib, z)
+            except Exception:
+                continue
+            ys = [dtm.datetime.utcfromtimestamp(t).year for t, b, a in tab if b[0] == a[0] and b[1] != a[1] and 946684800 < t < 2114380800]
+            if ys:
+                zl.append((z, ys[0]))
+        dst_only[lib] = zl
+    for k in range(30 if thorough else 10):
+        lib = "pytz" if k % 3 else "dateutil"
+        if not dst_only[lib]:
+            continue
+        z, y = dst_only[lib][rnd.randrange(len(dst_only[lib]))]
+        first = bool(k % 2)
+        base = dict(lib=lib, zone=z, start=max(2000, y - 1), until=min(2038, y + 2), interval=22, constructed=False)
+        pair_cases.append([dict(base, detect=first), dict(base, detect=not first), dict(base, detect=first)])
+    ctx.count("same_process_case_triples", len(pair_cases))
+    results = vt.pmap(run_case, cases) + [r_ for tr in vt.pmap(run_case_list, pair_cases) for r_ in tr]
     nt = set()
     late = 0
     rendered = []
@@ -317,6 +357,8 @@ def run(ctx):
         late += 1 if res["late"] else 0
         if res.get("dateutil_last_entry_excluded"):
             ctx.count("dateutil_last_table_entry_excluded", res["dateutil_last_entry_excluded"])
+        if res.get("dateutil_api_table_mismatch_excluded"):
+            ctx.count("dateutil_api_vs_table_instant_mismatch_excluded", res["dateutil_api_table_mismatch_excluded"])
         if res.get("closer_than_interval_excluded"):
             ctx.count("changes_closer_than_one_interval_excluded", res["closer_than_interval_excluded"])
         if res.get("dateutil_dst_only_excluded"):
